@@ -184,6 +184,7 @@ func (s *Skiplist) NewLevel(randFn func() float32) int {
 
 	level := int(atomic.LoadInt32(&s.level))
 	if nextLevel > level {
+		vyield(SiteNewLevelCAS)
 		if atomic.CompareAndSwapInt32(&s.level, int32(level), int32(level+1)) {
 			nextLevel = level + 1
 		} else {
@@ -197,6 +198,7 @@ func (s *Skiplist) NewLevel(randFn func() float32) int {
 func (s *Skiplist) helpDelete(level int, prev, curr, next *Node, sts *Stats) bool {
 	success := prev.dcasNext(level, curr, next, false, false)
 	if success && level == 0 {
+		vyield(SiteHelpDeleteStats)
 		sts.AddInt64(&sts.softDeletes, -1)
 		sts.AddInt64(&sts.levelNodesCount[curr.Level()], -1)
 		sts.AddInt64(&sts.usedBytes, -int64(s.Size(curr)))
@@ -336,6 +338,7 @@ retry:
 	}
 
 finished:
+	vyield(SiteInsertStats)
 	sts.AddInt64(&sts.nodeAllocs, 1)
 	sts.AddInt64(&sts.levelNodesCount[itemLevel], 1)
 	sts.AddInt64(&sts.usedBytes, int64(s.Size(x)))
@@ -350,6 +353,7 @@ func (s *Skiplist) softDelete(delNode *Node, sts *Stats) bool {
 		next, deleted := delNode.getNext(i)
 		for !deleted {
 			if delNode.dcasNext(i, next, next, false, true) && i == 0 {
+				vyield(SiteSoftDeleteStats)
 				sts.AddInt64(&sts.softDeletes, 1)
 				marked = true
 			}
